@@ -22,7 +22,7 @@ type memoSite struct {
 func memoSitesIn(f *core.FuncInfo) []memoSite {
 	var out []memoSite
 	info := f.Info()
-	ast.Inspect(f.Body(), func(x ast.Node) bool {
+	core.InspectBody(f, func(x ast.Node) bool {
 		call, ok := x.(*ast.CallExpr)
 		if !ok || len(call.Args) != 2 {
 			return true
@@ -196,7 +196,7 @@ func noMapOrderDependence(r *Run, fn string) {
 	c := f.Ctx()
 	n := 0
 	bad := ""
-	ast.Inspect(f.Body(), func(x ast.Node) bool {
+	core.InspectBody(f, func(x ast.Node) bool {
 		rs, ok := x.(*ast.RangeStmt)
 		if !ok {
 			return true
@@ -246,7 +246,7 @@ func noMapOrderDependence(r *Run, fn string) {
 // sortedAfter: after the loop, the function hands the variable to a sort routine.
 func sortedAfter(c *core.Ctx, f *core.FuncInfo, loop ast.Stmt, v *types.Var) bool {
 	found := false
-	ast.Inspect(f.Body(), func(x ast.Node) bool {
+	core.InspectBody(f, func(x ast.Node) bool {
 		call, ok := x.(*ast.CallExpr)
 		if !ok || call.Pos() < loop.End() {
 			return true
@@ -313,7 +313,7 @@ func init() {
 				if f != nil {
 					c := f.Ctx()
 					n := 0
-					ast.Inspect(f.Body(), func(x ast.Node) bool {
+					core.InspectBody(f, func(x ast.Node) bool {
 						if e, ok := x.(ast.Expr); ok {
 							if name, isFork := forkCall(c, e); isFork && (name == "ForkMultiSignAddress" || name == "ForkBase58AddressCheck") {
 								if call := ast.Unparen(e).(*ast.CallExpr); core.IsObj("param:2")(c, call.Args[0]) {
